@@ -68,6 +68,8 @@ impl<const N: usize> Sodg<N> {
     pub fn bind(&mut self, v1: usize, v2: usize, a: Label) {
         let mut ours = self.vertices.get(v1).unwrap().branch;
         let theirs = self.vertices.get(v2).unwrap().branch;
+        let stored1 = self.vertices.get(v1).unwrap().persistence == Persistence::Stored;
+        let stored2 = self.vertices.get(v2).unwrap().persistence == Persistence::Stored;
         let vtx1 = self.vertices.get_mut(v1).unwrap();
         vtx1.edges.insert(a, v2);
         if ours == BRANCH_STATIC {
@@ -82,15 +84,18 @@ impl<const N: usize> Sodg<N> {
                 }
                 self.vertices.get_mut(v2).unwrap().branch = ours;
                 self.branches.get_mut(ours).unwrap().push(v2);
+                *self.stores.get_mut(ours).unwrap() += usize::from(stored1) + usize::from(stored2);
             } else {
                 vtx1.branch = theirs;
                 self.branches.get_mut(theirs).unwrap().push(v1);
+                *self.stores.get_mut(theirs).unwrap() += usize::from(stored1);
             }
         } else {
             let vtx2 = self.vertices.get_mut(v2).unwrap();
             if vtx2.branch == BRANCH_STATIC {
                 vtx2.branch = ours;
                 self.branches.get_mut(ours).unwrap().push(v2);
+                *self.stores.get_mut(ours).unwrap() += usize::from(stored2);
             }
         }
         #[cfg(debug_assertions)]
@@ -124,9 +129,12 @@ impl<const N: usize> Sodg<N> {
     #[inline]
     pub fn put(&mut self, v: usize, d: &Hex) {
         let vtx = self.vertices.get_mut(v).unwrap();
+        let unread = vtx.persistence == Persistence::Stored;
         vtx.persistence = Persistence::Stored;
         vtx.data = d.clone();
-        *self.stores.get_mut(vtx.branch).unwrap() += 1;
+        if !unread && vtx.branch != BRANCH_STATIC {
+            *self.stores.get_mut(vtx.branch).unwrap() += 1;
+        }
         #[cfg(debug_assertions)]
         trace!("#put: data of ν{v} set to {d}");
     }
@@ -165,6 +173,9 @@ impl<const N: usize> Sodg<N> {
                 let d = vtx.data.clone();
                 vtx.persistence = Persistence::Taken;
                 let branch = vtx.branch;
+                if branch == BRANCH_STATIC {
+                    return Some(d);
+                }
                 let s = self.stores.get_mut(branch).unwrap();
                 *s -= 1;
                 if *s == 0 {
